@@ -43,11 +43,23 @@ Section C18.
   Proof.
     intros. split; [apply chain_n; assumption|]. apply chain_rate.
   Qed.
+  (** n_chains > 1: a leading chain axis of length n_chains, and chain c is exactly the single-chain
+      result for that chain's randomness - so every statement above holds per chain (that the
+      chains' randomness is independent is the key discipline of C06 / C07). *)
+  Theorem C18_chains_lanewise : forall init rss burn thin,
+      length (chains kernel dS init rss burn thin) = length rss
+      /\ forall c rs, nth_error rss c = Some rs ->
+           nth_error (chains kernel dS init rss burn thin) c = Some (chain kernel dS init rs burn thin).
+  Proof.
+    intros init rss burn thin. unfold chains. split; [apply map_length|].
+    intros c rs H. rewrite nth_error_map, H. reflexivity.
+  Qed.
 End C18.
 Print Assumptions C18_chain_states.
 Print Assumptions C18_chain_accepts.
 Print Assumptions C18_chain_is_slice.
 Print Assumptions C18_chain_counts.
+Print Assumptions C18_chains_lanewise.
 
 Example C18_nonvacuous :
   let k := fun (s : nat) (r : nat) => (s * 2 + r, Nat.even (s + r)) in
